@@ -18,6 +18,7 @@ import itertools
 from typing import Dict, List, Optional, Tuple
 
 PRIMS = ["bool", "int", "float", "str", "bytearray"]
+UNSET = "unset"
 
 
 @dataclasses.dataclass
@@ -30,7 +31,9 @@ class Cls:
     methods: List[str] = dataclasses.field(default_factory=list)
     # None = no __init__; else (args, body) with body entries ("super", name) | ("assign", prop)
     ctor: Optional[Tuple[List[str], List[Tuple[str, str]]]] = None
-    wmt: Optional[bool] = None
+    # None = no decorator, True/False = @serialization(with_model_type=..),
+    # UNSET = an empty @serialization() (Serialization object with with_model_type=None)
+    wmt: object = None
 
     def to_json(self):
         d = dataclasses.asdict(self)
@@ -250,6 +253,10 @@ def gen_valid(rng, max_n: int = 9, kind: Optional[str] = None, with_cp: Optional
     for i in range(n):
         if bases[i] and rng.random() < 0.08:
             classes[i].wmt = True
+    # an empty @serialization() at any level (roots, middle of chains/diamonds, leaves)
+    for i in range(n):
+        if classes[i].wmt is None and rng.random() < 0.15:
+            classes[i].wmt = UNSET
     # constrained primitives
     cps: List[Cls] = []
     prim = rng.choice(["str", "int", "bytearray", "float", "bool"])
@@ -261,6 +268,8 @@ def gen_valid(rng, max_n: int = 9, kind: Optional[str] = None, with_cp: Optional
             c.bases = [names[n + b] for b in cp_bases[i]]
         for j in range(rng.choice([0, 1, 1, 2])):
             c.invs.append(f"Inv {c.name} {j}")
+        if rng.random() < 0.05:
+            c.wmt = UNSET      # silently ignored on a constrained primitive
         cps.append(c)
     # declaration order: random linear extension of everything
     all_bases = bases + [[n + b for b in bs] for bs in cp_bases]
@@ -570,7 +579,9 @@ def render_source(spec: Spec) -> str:
             all(b in bn for b in class_bases(c)) and _safe_is_cp(spec, c.name))
         if c.abstract:
             out.append("@abstract")
-        if c.wmt is not None:
+        if c.wmt == UNSET:
+            out.append("@serialization()")
+        elif c.wmt is not None:
             out.append(f"@serialization(with_model_type={c.wmt})")
         # decorators apply bottom-up: the parser lists the invariants in reverse
         for d in reversed(c.invs):
@@ -631,6 +642,14 @@ def coq_list(xs) -> str:
     return "[" + "; ".join(xs) + "]"
 
 
+def coq_wmt(w) -> str:
+    if w is None:
+        return "None"
+    if w == UNSET:
+        return "(Some None)"
+    return f"(Some (Some {'true' if w else 'false'}))"
+
+
 def coq_cls(c: Cls) -> str:
     if c.ctor is None:
         ctor = "None"
@@ -638,7 +657,7 @@ def coq_cls(c: Cls) -> str:
         body = coq_list(
             (f"CallSuper {coq_text(x)}" if k == "super" else f"Assign {coq_text(x)}") for k, x in c.ctor[1])
         ctor = f"(Some (Build_ctor {coq_list(coq_text(a) for a in c.ctor[0])} {body}))"
-    wmt = "None" if c.wmt is None else f"(Some {'true' if c.wmt else 'false'})"
+    wmt = coq_wmt(c.wmt)
     return ("(Build_cls " + coq_text(c.name)
             + " " + ("true" if c.abstract else "false")
             + " " + coq_list(coq_text(b) for b in c.bases)
